@@ -16,7 +16,9 @@ check("C12", "exploration",
       "Complete enumeration of the finite claim: every triangle order 1..20 x every monomial of degree <= n, every Gauss "
       "order 1..30 x degrees <= 2n-1, every singular rule order x every 4-variable monomial of degree <= 2n-4, every one of "
       "the 36 edge / 9 vertex remap combinations x 3 geometries x orders 2..9 (11) against exact rationals and an "
-      "independently computed reference integral. Nothing is sampled; the space is finite and is covered.",
+      "independently computed reference integral. Nothing is sampled; the space is finite and is covered. Request histories: for every "
+      "rule family every ordered pair (thorough: triple) of orders, and interleavings with the other families, must return bitwise the "
+      "rule a fresh interpreter returns (table computed ascending and descending in separate interpreters).",
       "DESIGN.md 4/C12",
       "Trusted: exact rational arithmetic; reference 1/|x-y| integrals (analytic triangle potential + graded Gauss, "
       "self-checked at two resolutions and against the Eibert-Hansen closed form on every run).",
@@ -26,7 +28,9 @@ check("C11", "model_checking",
       "Explicit-state search over grids: states are real Grid objects reached from catalogue meshes and from ALL sub-complexes of "
       "small base meshes by bounded sequences of constructor steps (relabel, dtype/order, refine, barycentric, union, segment "
       "extraction); in every state every topology/geometry table is compared with a brute-force O(n^2) reference, and every "
-      "constructor step with the statement of what it preserves. All 9x local edge classes and 9 vertex classes are asserted covered.",
+      "constructor step with the statement of what it preserves. All 9x local edge classes and 9 vertex classes are asserted covered. "
+      "grid_from_segments additionally for every domain subset and every single / pair / all-but-one element selection on meshes with more "
+      "than 8 vertices.",
       "DESIGN.md 4/C11",
       "Trusted: the set-based reference topology (bex/models/topo_ref.py) and textbook geometry formulas. Duplicate elements are outside the alphabet.",
       "explicit-state BFS over constructor histories on the real Grid class, invariant = agreement with reference topology")
@@ -63,7 +67,7 @@ check("C01", "exploration",
 
 check("C02", "exploration",
       "Exhaustive lattice mesh x density representation (whole-grid P1/DP0, DP1/DP0, sum over segment-restricted spaces, the same "
-      "with one segment physically reversed and flagged in swapped_normals) x regular order x {1,x,y,z} x every lattice point of "
+      "with one segment physically reversed and flagged in swapped_normals, whole-grid continuous P1 on such a grid) x regular order x {1,x,y,z} x every lattice point of "
       "the doubled bounding box (plus an inner lattice) that the reference places at least one element diameter from the surface; "
       "inside/outside by solid-angle winding number.",
       "DESIGN.md 4/C02",
@@ -133,7 +137,9 @@ check("C13", "exploration",
       "functions; SPD / sum-is-area consequences; Laplace-Beltrami against per-element exact stiffness; projection of affine / "
       "constant-tangential members of each space through all 16 callable-decorator flag combinations; integrate, l2_norm, projections, "
       "evaluate_on_vertices, evaluate_on_element_centers for every unit coefficient vector (linearity => all vectors); "
-      "MultiplicationOperator in component and inner mode.",
+      "MultiplicationOperator in component and inner mode. Explicit-state search over GridFunction method-call histories (coefficients, "
+      "projections onto its own and other dual spaces, integrate, l2_norm, evaluate; depth 3/4) from every construction mode (coefficients, "
+      "projections with each dual space): every observation against direct quadrature of the represented function.",
       "DESIGN.md 4/C13 and B.5",
       "Trusted: degree-4 exact rule (Dunavant) applied to basis functions evaluated through the public path (validated by C09).",
       "exhaustive sweep (space pair x order x unit vector) against exact L2 quantities")
@@ -196,7 +202,9 @@ check("C03", "model_checking",
       "element by 1 or 2, reverse one element and flag it in swapped_normals, transpose vertex labels} to depth 2 (thorough 3) from two "
       "initial labellings on edge2/bow2 and coarse generators on larger meshes; in every state every operator is assembled and compared "
       "with D P A P' D, where P and D are derived by matching the represented basis functions geometrically. Regular parts to rounding, "
-      "singular parts quadrature-class at two singular orders. All 18 edge and 9 vertex remap classes are asserted covered.",
+      "singular parts quadrature-class at two singular orders (self-calibrated against the library's own order ladder). All 18 edge and 9 "
+      "vertex remap classes are asserted covered. The same graph on a junction grid (three triangles around one edge) with segment spaces; "
+      "orientation flips (domain stored reversed + swapped_normals) for dual-grid spaces, assembled in FMM mode with the exact stub.",
       "DESIGN.md 4/C03",
       "Trusted: geometric matching of basis functions (evaluated through the public path); symmetric point set of the order-4 triangle rule; "
       "the pure-Python Duffy rule generator is memoised during the run (copied on use).",
